@@ -124,8 +124,16 @@ var payloadMarker = regexp.MustCompile(`"k0":"pay(\d+)"`)
 func fingerprint(req *pb.BulkRequest) []byte { return fingerprintOf(req, false) }
 
 func fingerprintOf(req *pb.BulkRequest, compressed bool) []byte {
+	decompress := func() (raw []byte, err error) {
+		defer func() {
+			if p := recover(); p != nil {
+				err = fmt.Errorf("not a document block: %v", p) // (an empty or foreign payload)
+			}
+		}()
+		return disk.DocBlock(req.Docs).DecompressTo(nil)
+	}
 	if !compressed {
-	} else if raw, err := disk.DocBlock(req.Docs).DecompressTo(nil); err == nil {
+	} else if raw, err := decompress(); err == nil {
 		if ms := payloadMarker.FindAllSubmatch(raw, -1); len(ms) > 0 {
 			var b bytes.Buffer
 			fmt.Fprintf(&b, "%d|docs", req.Count)
@@ -375,6 +383,12 @@ func (r *c09Runner) store(client *bulk.SeqDBClient, ci, no, size int, hot, cold 
 			[]byte(fmt.Sprintf(`{"k0":"pay%d","msg":"second"}`, no)),
 		}
 		want = []byte(fmt.Sprintf("2|docs %d %d", no, no))
+		if (uint64(no)*2654435761+r.c.Seed)%4 == 0 {
+			// a line the processor cannot decode after a good one: the bulk must fail as a whole, whatever the pooled
+			// compressor still holds from the bulk before
+			lines[1] = []byte(`{"k0":"pay` + fmt.Sprint(no) + `","msg":`)
+			r.res.Fired["ingestor_bulk_with_bad_line"]++
+		}
 		i := 0
 		_, err = r.ing.ProcessDocuments(ctx, time.Now(), func() ([]byte, error) {
 			if i >= len(lines) {
